@@ -89,6 +89,7 @@ func init() {
 		"encoding/hex.EncodeToString":              pureFreshString,
 		"sort.Strings":                             sortStrings,
 		"sort.Slice":                               sortSlice,
+		"sort.Ints":                                sortInts,
 		"log/slog.Warn":                            pureHavoc,
 		"log/slog.Info":                            pureHavoc,
 		"log/slog.Error":                           pureHavoc,
@@ -1186,5 +1187,29 @@ func syncOnceDo(f *Frame, st *state, callee *ssa.Function, args []Val, ins ssa.I
 	st.mem = u.mergeMem([]string{run.reach, skip}, []*Mem{run.mem, st.mem})
 	st.reach = u.ctx.def("onceafter", SBool, or(run.reach, skip))
 	u.setArr(st.mem, site, SBool, store(u.arr(st.mem, site, SBool), o.S[0], "true"))
+	return nil
+}
+
+// sortInts models sort.Ints(x): afterwards the elements are a rearrangement of the old ones (two uninterpreted index
+// maps, as for sort.Slice) in non-decreasing order; memory outside the slice is unchanged.
+func sortInts(f *Frame, st *state, callee *ssa.Function, args []Val, ins ssa.Instruction, resT types.Type) *Val {
+	u := f.u
+	x := args[0]
+	p, n := x.S[0], x.S[1]
+	const site = "elem.int#0"
+	perm, inv := u.ctx.fresh("perm"), u.ctx.fresh("perminv")
+	u.ctx.declareFun(perm, []string{SInt}, SInt)
+	u.ctx.declareFun(inv, []string{SInt}, SInt)
+	for _, fn := range []string{perm, inv} {
+		u.ctx.assert("lib:sort.Ints", fmt.Sprintf("(forall ((i! Int)) (! (=> (and (<= 0 i!) (< i! %s)) (and (<= 0 (%s i!)) (< (%s i!) %s))) :pattern ((%s i!))))", n, fn, fn, n, fn))
+	}
+	old := u.arr(st.mem, site, SInt)
+	na := u.ctx.freshConst("Msort:"+site, SArr(SInt, SInt))
+	u.ctx.assert("lib:sort.Ints", fmt.Sprintf("(forall ((a! Int)) (! (=> (or (< a! %s) (>= a! (+ %s %s))) (= (select %s a!) (select %s a!))) :pattern ((select %s a!))))", p, p, n, na, old, na))
+	u.ctx.assert("lib:sort.Ints", fmt.Sprintf("(forall ((i! Int)) (! (=> (and (<= 0 i!) (< i! %s)) (= (select %s (+ %s i!)) (select %s (+ %s (%s i!))))) :pattern ((%s i!))))", n, na, p, old, p, perm, perm))
+	u.ctx.assert("lib:sort.Ints", fmt.Sprintf("(forall ((j! Int)) (! (=> (and (<= 0 j!) (< j! %s)) (= (select %s (+ %s j!)) (select %s (+ %s (%s j!))))) :pattern ((%s j!))))", n, old, p, na, p, inv, inv))
+	u.ctx.assert("lib:sort.Ints", fmt.Sprintf("(forall ((i! Int) (j! Int)) (=> (and (<= 0 i!) (< i! j!) (< j! %s)) (<= (select %s (+ %s i!)) (select %s (+ %s j!)))))", n, na, p, na, p))
+	u.sortOfSite(site, SInt)
+	u.putArr(st.mem, site, na)
 	return nil
 }
